@@ -1,9 +1,196 @@
 import Drive.Json
-/-! Line-protocol handlers: Codec (stub until the model lands). -/
+import PlaybackModel.Codec
+import PlaybackModel.Keys
+import PlaybackModel.Cassette
+/-! Line-protocol handlers for the codec / key / cassette models (C06, C07).
+
+Wire form of `Val`: null | true | false | {"i":"<decimal>"} | {"f":"<repr>"} | {"s":str} | {"b":[byte..]} (in) /
+{"q":"<quoted-printable>"} (out) | {"l":[..]} | {"t":[..]} | {"S":[..]} (set, iteration order) |
+{"d":[[k,v]..]} (insertion order) | {"o":[class,[[k,v]..]]} | {"c":class}. -/
 open Lean
 namespace Drive.Codec
-open Drive
+open Drive PlaybackModel.Codec PlaybackModel.Keys PlaybackModel.Cassette
 
-def handlers : List (String × Handler) := []
+mutual
+  partial def toVal (j : Json) : Except String Val :=
+    match j with
+    | .null => .ok .none
+    | .bool b => .ok (.bool b)
+    | _ =>
+      match optField j "i", optField j "f", optField j "s", optField j "b", optField j "q" with
+      | some i, _, _, _, _ => do .ok (.int (← asInt i))
+      | _, some f, _, _, _ => do .ok (.float (← asStr f))
+      | _, _, some s, _, _ => do .ok (.str (← asStr s))
+      | _, _, _, some b, _ => do .ok (.bytes (qpEncode (← mapM' asNat (← asArr b))))
+      | _, _, _, _, some q => do .ok (.bytes (← asStr q))
+      | _, _, _, _, _ =>
+        match optField j "l", optField j "t", optField j "S", optField j "d", optField j "o", optField j "c" with
+        | some l, _, _, _, _, _ => do .ok (.list (← toVals (← asArr l)))
+        | _, some t, _, _, _, _ => do .ok (.tuple (← toVals (← asArr t)))
+        | _, _, some s, _, _, _ => do .ok (.set (← toVals (← asArr s)))
+        | _, _, _, some d, _, _ => do .ok (.dict (← toFields (← asArr d)))
+        | _, _, _, _, some o, _ => do
+          match ← asArr o with
+          | [c, fs] => .ok (.obj (← asStr c) (← toFields (← asArr fs)))
+          | _ => .error "bad object"
+        | _, _, _, _, _, some c => do .ok (.cls (← asStr c))
+        | _, _, _, _, _, _ => .error s!"bad value {j.compress}"
+  partial def toVals (l : List Json) : Except String Vals :=
+    match l with
+    | [] => .ok .nil
+    | x :: xs => do .ok (.cons (← toVal x) (← toVals xs))
+  partial def toFields (l : List Json) : Except String Fields :=
+    match l with
+    | [] => .ok .nil
+    | kv :: rest => do
+      match ← asArr kv with
+      | [k, v] => .ok (.cons (← asStr k) (← toVal v) (← toFields rest))
+      | _ => .error "bad field"
+end
+
+mutual
+  def ofVal : Val → Json
+    | .none => .null
+    | .bool b => .bool b
+    | .int n => jObj [("i", .str (toString n))]
+    | .float r => jObj [("f", .str r)]
+    | .str s => jObj [("s", .str s)]
+    | .bytes qp => jObj [("q", .str qp)]
+    | .list xs => jObj [("l", jArr (ofVals xs))]
+    | .tuple xs => jObj [("t", jArr (ofVals xs))]
+    | .set xs => jObj [("S", jArr (ofVals xs))]
+    | .dict fs => jObj [("d", jArr (ofFields fs))]
+    | .obj c fs => jObj [("o", jArr [.str c, jArr (ofFields fs)])]
+    | .cls n => jObj [("c", .str n)]
+  def ofVals : Vals → List Json
+    | .nil => []
+    | .cons x xs => ofVal x :: ofVals xs
+  def ofFields : Fields → List Json
+    | .nil => []
+    | .cons k v fs => jArr [.str k, ofVal v] :: ofFields fs
+end
+
+def errName : Err → String
+  | .indexError => "IndexError"
+  | .keyError => "KeyError"
+  | .valueError => "ValueError"
+
+def toPVal (j : Json) : Except String PVal :=
+  match optField j "i", optField j "s" with
+  | some i, _ => do .ok (.int (← asInt i))
+  | _, some s => do .ok (.str (← asStr s))
+  | _, _ => .error s!"bad alias parameter {j.compress}"
+
+def toParams (j : Json) : Except String (Option (List (String × PVal))) :=
+  if isNull j then .ok none else do
+    let l ← asArr j
+    let ps ← mapM' (fun kv => do
+      match ← asArr kv with
+      | [k, v] => .ok ((← asStr k), (← toPVal v))
+      | _ => .error "bad parameter") l
+    .ok (some ps)
+
+def toSel (j : Json) : Except String Sel :=
+  if isNull j then .ok .all else do
+    let l ← asArr j
+    let cs ← mapM' (fun c => do
+      match ← asArr c with
+      | [p, n] => do
+        let pos ← if isNull p then pure none else (do pure (some (← asNat p)))
+        let name ← if isNull n then pure none else (do pure (some (← asStr n)))
+        .ok (⟨pos, name⟩ : CapturedArg)
+      | _ => .error "bad captured arg") l
+    .ok (.only cs)
+
+/-- {"m":"c06.key","alias":..,"resolved":null|[[name,pval]..],"sel":null|[[pos|null,name|null]..],"static":bool,
+     "args":[v..],"kwargs":[[k,v]..]} → {"key":text} | {"err":name} -/
+def keyH : Handler := fun j => do
+  let alias ← strField j "alias"
+  let resolved ← toParams (fieldD j "resolved" .null)
+  let sel ← toSel (fieldD j "sel" .null)
+  let static ← boolField j "static"
+  let args ← toVals (← arrField j "args")
+  let kwargs ← toFields (← arrField j "kwargs")
+  match callKey alias resolved sel static args kwargs with
+  | .ok k => .ok (jObj [("key", .str k)])
+  | .error e => .ok (jObj [("err", .str (errName e))])
+
+/-- {"m":"c06.encode","v":v} → text of jsonpickle.encode(v) -/
+def encodeH : Handler := fun j => do
+  .ok (.str (encodeText (← toVal (← field j "v"))))
+
+/-- {"m":"c06.roundtrip","v":v} → wire of decode(encode(v)) | null when the model's parser rejects -/
+def roundtripH : Handler := fun j => do
+  let v ← toVal (← field j "v")
+  match decodeToks (encToks v) with
+  | some v' => .ok (jObj [("v", ofVal v')])
+  | none => .ok .null
+
+/-- {"m":"c06.outkey","alias":..,"n":k} -/
+def outkeyH : Handler := fun j => do
+  .ok (.str (outputKey (← strField j "alias") (← natField j "n")))
+
+/-! ### cassettes -/
+def toKind (j : Json) : Except String Kind := do
+  match ← strField j "kind" with
+  | "memory" => .ok .memory
+  | "file" => .ok .file
+  | "s3" => .ok (.s3 (← strField j "prefix"))
+  | k => .error s!"bad cassette kind {k}"
+
+def cerrJson : CErr → Json
+  | .noSuchRecording _ => jObj [("err", .str "NoSuchRecording")]
+  | .decodeError => jObj [("err", .str "DecodeError")]
+
+def blobText (s : Store) (name : String) : Json :=
+  match s.get name with
+  | some b => .str (render b)
+  | none => .null
+
+/-- one operation on the store; returns the new store and the observation -/
+def step (c : Kind) (s : Store) (op : Json) : Except String (Store × Json) := do
+  let z := Zip.id
+  match ← strField op "op" with
+  | "save" =>
+    let r : Recording := ⟨← strField op "id", ← toFields (← arrField op "data"), ← toFields (← arrField op "meta")⟩
+    .ok (save z c s r, .null)
+  | "get" =>
+    let id ← strField op "id"
+    match get z c s id with
+    | .ok r => .ok (s, jObj [("id", .str r.id), ("keys", jArr (r.data.keys.map .str)),
+                             ("data", jArr (ofFields r.data)), ("meta", jArr (ofFields r.metadata))])
+    | .error e => .ok (s, cerrJson e)
+  | "meta" =>
+    let id ← strField op "id"
+    match getMetadata z c s id with
+    | .ok m => .ok (s, jObj [("meta", jArr (ofFields m))])
+    | .error e => .ok (s, cerrJson e)
+  | "blob" =>
+    let id ← strField op "id"
+    match c with
+    | .memory => .ok (s, jObj [("text", blobText s id)])
+    | .file => .ok (s, jObj [("name", .str (fileName id)), ("text", blobText s (fileName id))])
+    | .s3 kp => .ok (s, jObj [("full_key", .str (fullKey kp id)), ("full", blobText s (fullKey kp id)),
+                              ("meta_key", .str (metaKey kp id)), ("metadata", blobText s (metaKey kp id))])
+  | "names" =>
+    let names := s.map (·.1)
+    .ok (s, jArr ((names.eraseDups.toArray.qsort (· < ·)).toList.map .str))
+  | o => .error s!"bad op {o}"
+
+def steps (c : Kind) : Store → List Json → Except String (List Json)
+  | _, [] => .ok []
+  | s, op :: ops => do
+    let (s', r) ← step c s op
+    let rs ← steps c s' ops
+    .ok (r :: rs)
+
+/-- {"m":"c07.run","kind":"memory"|"file"|"s3","prefix":..,"ops":[..]} → one observation per op -/
+def runH : Handler := fun j => do
+  let c ← toKind j
+  .ok (jArr (← steps c [] (← arrField j "ops")))
+
+def handlers : List (String × Handler) :=
+  [("c06.key", keyH), ("c06.encode", encodeH), ("c06.roundtrip", roundtripH), ("c06.outkey", outkeyH),
+   ("c07.run", runH)]
 
 end Drive.Codec
